@@ -118,6 +118,20 @@ def check_L1_weights(S, p):
         reqs.append(E.l1_request(cs, smap, project))
         meta.append((cs, smap, project))
         S.count("L1_cohorts")
+    if p["i"] % 4 == 1:
+        # more than ~1090 called chromosomes, projected to about half, intermediate allele frequency: hypergeometric tails underflow
+        rng = rng_for(seed, "c10", p["name"], "L1big")
+        ns = rng.choice([545, 600, 800])
+        samples = ["s%d" % j for j in range(ns)]
+        recs = []
+        for ri, pf in enumerate([0.5, 0.45, 0.6, 0.02, 0.98, 0.5]):
+            recs.append(Record("c1", 1 + ri, [gt((1 if rng.random() < pf else 0, 1 if rng.random() < pf else 0), False) for _ in samples]))
+        cs = CallSet(samples, [("c1", 10 ** 6)], recs)
+        smap = [(s_, None) for s_ in samples]
+        project = [rng.choice([ns, ns - 1, ns + 1, 2 * (ns // 4)])]
+        reqs.append(E.l1_request(cs, smap, project))
+        meta.append((cs, smap, project))
+        S.count("L1_cohorts")
     for (cs, smap, project), r in zip(meta, harness.run_all(reqs)):
         if "events" not in r:
             S.viol("C10:L1-fail", "[L1] %s" % str(r)[:200], {"level": "L1", "map": E.map_json(smap), "project": project})
